@@ -19,6 +19,7 @@ import Ajson.Proofs.Steps
 import Ajson.Proofs.Refine
 import Ajson.Proofs.RefineDelete
 import Ajson.Proofs.AppendMany
+import Ajson.Proofs.SetNodeValue
 import Ajson.Model.Decode
 
 namespace Ajson.Props.C05
@@ -201,6 +202,16 @@ theorem C05_append_array_moves {h : Heap} (hs : Struct h) (ha : Acyc h) (n v p :
     (∀ xs x, absVal (fuel + 1) (h.remove p v).1 n = some (.arr xs) → absVal fuel h v = some x →
       absVal (fuel + 1) (h.appendArray n [v]).1 n = some (.arr (xs ++ [x]))) :=
   appendArray_move_refines hs ha n v p hn hv harr hloop hpar fuel
+
+/-- **SetNode is assignment of a whole value**: after an accepted `SetNode(value)` the receiver denotes what `value` denotes — at every
+depth: the clone it takes over denotes what the original denotes (`C14_equal_value`) — and every node that existed before and is
+neither the receiver nor one of its ancestors (the receiver's former children, now detached; `value` itself and everything around
+it; all other trees) denotes what it denoted before -/
+theorem C05_set_node_assigns_the_value {h : Heap} (hs : Struct h) (ha : Acyc h) (n value : Nat) (hn : n < h.size) (hv : value < h.size)
+    (hne : n ≠ value) (hl : h.isParentOrSelfNode n value = false) (fuel : Nat) :
+    absVal fuel (h.setNode n value).1 n = absVal fuel h value ∧
+    (∀ m : Nat, m < h.size → ¬ Anc h m n → absVal fuel (h.setNode n value).1 m = absVal fuel h m) :=
+  setNode_refines hs ha n value hn hv hne hl fuel
 
 /-- what a node denotes depends only on the types, scalar payloads and children maps of its subtree (the frame rule behind the three
 theorems, usable for any other pair of heaps) -/
